@@ -1102,7 +1102,27 @@ func ruleSem5(c *Ctx, r *Reporter) {
 			continue
 		}
 		n++
-		key := "conversion " + fn.Name()
+		// the construct names the library conversions the helper is built from: a finding recorded for one way of
+		// converting does not cover another
+		via := map[string]bool{}
+		allInstrs(fn, func(in ssa.Instruction) {
+			if ci, ok := in.(ssa.CallInstruction); ok {
+				if f := calleeObj(ci.Common()); f != nil && f.Pkg() != nil {
+					switch f.Pkg().Path() {
+					case "github.com/shopspring/decimal", "strconv", "math/big", "fmt":
+						if f.Type().(*types.Signature).Recv() == nil {
+							via[f.Pkg().Name()+"."+f.Name()] = true
+						}
+					}
+				}
+			}
+		})
+		var vias []string
+		for k := range via {
+			vias = append(vias, k)
+		}
+		sort.Strings(vias)
+		key := "conversion " + fn.Name() + " via " + strings.Join(vias, ",")
 		var problems []string
 		for _, ret := range returnsOf(fn) {
 			v := retVal(ret, 0)
